@@ -134,6 +134,11 @@ func verifLDecode(d *json.Decoder, v any) error {
 		return errVerifLJSON
 	}
 
+	// inside the list. Texts the real decoder REJECTS are rejected here too (so a
+	// client that writes something else than JSON shows up as a failing parse, not
+	// as a gap of the model); texts it accepts but that are not `[` ints/plain
+	// strings `]` (white space, floats, escapes, nested values, true/false/null)
+	// are outside the model: panic => INCONCLUSIVE.
 	i := 1
 	out := []any{}
 	if i < len(data) && data[i] == ']' {
@@ -142,59 +147,88 @@ func verifLDecode(d *json.Decoder, v any) error {
 	}
 	for {
 		if i >= len(data) {
-			panic("verif json list model: truncated list is outside the model's grammar")
+			return io.ErrUnexpectedEOF
 		}
-		st := i
-		if data[i] == '"' {
+		switch c := data[i]; {
+		case c == '"':
 			i++
-			st = i
+			st := i
 			for i < len(data) && data[i] != '"' {
 				i++
 			}
 			if i >= len(data) {
-				panic("verif json list model: unterminated string is outside the model's grammar")
+				return io.ErrUnexpectedEOF
 			}
-			s := string(data[st:i])
-			if !verifLPlain(s) {
-				panic("verif json list model: string with escapes is outside the model's grammar")
+			ctl, esc := false, false
+			for k := st; k < i; k++ {
+				ctl = verifOr(ctl, data[k] < 0x20)
+				esc = verifOr(esc, data[k] == '\\')
+				esc = verifOr(esc, data[k] > 0x7e)
 			}
+			if ctl {
+				return errVerifLJSON // control byte inside a string literal
+			}
+			if esc {
+				panic("verif json list model: string with escapes / non-ASCII bytes is outside the model's grammar")
+			}
+			out = append(out, string(data[st:i]))
 			i++
-			out = append(out, s)
-		} else {
-			for i < len(data) && data[i] != ',' && data[i] != ']' {
+		case c == '-' || (c >= '0' && c <= '9'):
+			// integer numeral: -?(0|[1-9][0-9]*)
+			st := i
+			if c == '-' {
 				i++
 			}
-			num := data[st:i]
-			// integer numeral: -?(0|[1-9][0-9]*)
-			k := 0
-			if k < len(num) && num[k] == '-' {
-				k++
+			d0 := i
+			for i < len(data) && data[i] >= '0' && data[i] <= '9' {
+				i++
 			}
-			good := k < len(num)
-			if len(num)-k > 1 {
-				good = verifAnd(good, num[k] != '0')
+			if i == d0 {
+				return errVerifLJSON // "-" without a digit
 			}
-			for ; k < len(num); k++ {
-				good = verifAnd(good, num[k] >= '0')
-				good = verifAnd(good, num[k] <= '9')
+			if i-d0 > 1 && data[d0] == '0' {
+				return errVerifLJSON // a digit after a leading 0
 			}
-			if !good {
-				panic("verif json list model: element is neither an integer numeral nor a string")
+			if i < len(data) && (data[i] == '.' || data[i] == 'e' || data[i] == 'E') {
+				panic("verif json list model: fraction / exponent is outside the model's grammar")
 			}
-			out = append(out, json.Number(string(num)))
+			out = append(out, json.Number(string(data[st:i])))
+		case c == '[' || c == '{' || c == ' ' || c == '\t' || c == '\r' || c == '\n':
+			panic("verif json list model: nested value / white space is outside the model's grammar")
+		case c == 't' || c == 'f' || c == 'n':
+			lit := "true"
+			if c == 'f' {
+				lit = "false"
+			} else if c == 'n' {
+				lit = "null"
+			}
+			for k := 1; k < len(lit); k++ {
+				if i+k >= len(data) || data[i+k] != lit[k] {
+					return errVerifLJSON // truncated or misspelt literal
+				}
+			}
+			panic("verif json list model: true / false / null element is outside the model's grammar")
+		default:
+			return errVerifLJSON // no JSON value starts with this byte (also `]` after a comma)
 		}
-		if i < len(data) && data[i] == ',' {
+		// after an element
+		if i >= len(data) {
+			return io.ErrUnexpectedEOF
+		}
+		switch c := data[i]; {
+		case c == ',':
 			i++
 			continue
-		}
-		if i < len(data) && data[i] == ']' {
+		case c == ']':
 			// the stream decoder stops at the closing bracket; what follows is not read
-			break
+			*dst = out
+			return nil
+		case c == ' ' || c == '\t' || c == '\r' || c == '\n':
+			panic("verif json list model: white space is outside the model's grammar")
+		default:
+			return errVerifLJSON // neither `,` nor `]` after an array element
 		}
-		panic("verif json list model: text outside the model's grammar")
 	}
-	*dst = out
-	return nil
 }
 
 type verifReqL struct {
@@ -202,6 +236,7 @@ type verifReqL struct {
 	Ids  []int    `header:"X-Ids"`
 	Tags []string `header:"X-Tags"`
 	Fi   []int    `form:"fi"`
+	Fs   []string `form:"fs"`
 }
 
 type verifSrvL struct {
@@ -215,12 +250,27 @@ func (s *verifSrvL) ServeHTTP(w http.ResponseWriter, r *http.Request) {
 	s.err = httpx.Parse(r, &s.got)
 }
 
-func verifIntList(name string, n, lo, hi int) []int {
+// verifIntList: n symbolic ints; element 0 in [-wide, wide], the others in [-9, 9]
+// (every element's sign and digit count is a fork of the decimal rendering).
+func verifIntList(name string, n, wide int) []int {
 	l := make([]int, n)
 	for i := 0; i < n; i++ {
 		l[i] = verifInt(name + strconv.Itoa(i))
-		verifAssume(l[i] >= lo)
-		verifAssume(l[i] <= hi)
+		if i == 0 {
+			verifAssume(l[i] >= -wide)
+			verifAssume(l[i] <= wide)
+		} else {
+			verifAssume(l[i] >= -9)
+			verifAssume(l[i] <= 9)
+		}
+	}
+	return l
+}
+
+func verifLetterList(name string, n int) []string {
+	l := make([]string, n)
+	for i := 0; i < n; i++ {
+		l[i] = verifSymStr(name+strconv.Itoa(i), 1, 'a', 'z')
 	}
 	return l
 }
@@ -233,16 +283,14 @@ func Verif_C05_roundtrip_list() {
 	if verifChoose("method", 2) == 1 {
 		method = http.MethodPost
 	}
-	nFi := 1 + verifChoose("fi.len", 3)
+	nF := 1 + verifChoose("f.len", 3) // both form lists
 
 	var sent verifReqL
 	sent.Key = verifSymStr("key", 1, 'a', 'z')
-	sent.Ids = verifIntList("ids", nIds, -verifParam("nmax"), verifParam("nmax"))
-	sent.Tags = make([]string, nTags)
-	for i := 0; i < nTags; i++ {
-		sent.Tags[i] = verifSymStr("tags"+strconv.Itoa(i), 1, 'a', 'z')
-	}
-	sent.Fi = verifIntList("fi", nFi, 0, 9)
+	sent.Ids = verifIntList("ids", nIds, verifParam("nmax"))
+	sent.Tags = verifLetterList("tags", nTags)
+	sent.Fi = verifIntList("fi", nF, 9)
+	sent.Fs = verifLetterList("fs", nF)
 
 	creq, err := buildRequest(context.Background(), method, "http://host/items/:key", &sent)
 	verifAssert(err == nil, "buildRequest accepts the request struct")
@@ -263,6 +311,20 @@ func Verif_C05_roundtrip_list() {
 		return
 	}
 	verifReach("list-routed")
+	// which list shapes took part (tagged before the oracle, so that a failing
+	// shape is reported as a violation, not also as a vacuous tag)
+	if nIds == 1 || nTags == 1 {
+		verifReach("one-element-list")
+	}
+	if nIds > 1 || nTags > 1 {
+		verifReach("multi-element-list")
+	}
+	if nF == 1 {
+		verifReach("form-one-element-list")
+	}
+	if nF > 1 {
+		verifReach("form-multi-element-list")
+	}
 	verifAssert(srv.err == nil, "httpx.Parse accepts the list-valued parts the client helper sent")
 	if srv.err != nil {
 		return
@@ -272,7 +334,8 @@ func Verif_C05_roundtrip_list() {
 	verifAssert(len(got.Ids) == len(sent.Ids), "[]int header part parsed back with the same length")
 	verifAssert(len(got.Tags) == len(sent.Tags), "[]string header part parsed back with the same length")
 	verifAssert(len(got.Fi) == len(sent.Fi), "[]int form part parsed back with the same length")
-	if len(got.Ids) != len(sent.Ids) || len(got.Tags) != len(sent.Tags) || len(got.Fi) != len(sent.Fi) {
+	verifAssert(len(got.Fs) == len(sent.Fs), "[]string form part parsed back with the same length")
+	if len(got.Ids) != len(sent.Ids) || len(got.Tags) != len(sent.Tags) || len(got.Fi) != len(sent.Fi) || len(got.Fs) != len(sent.Fs) {
 		return
 	}
 	for i := range sent.Ids {
@@ -284,13 +347,10 @@ func Verif_C05_roundtrip_list() {
 	for i := range sent.Fi {
 		verifAssert(got.Fi[i] == sent.Fi[i], "[]int form part parsed back equal, element by element")
 	}
+	for i := range sent.Fs {
+		verifAssert(got.Fs[i] == sent.Fs[i], "[]string form part parsed back equal, element by element")
+	}
 	verifReach("roundtrip-list")
-	if nIds == 1 || nTags == 1 || nFi == 1 {
-		verifReach("one-element-list")
-	}
-	if nIds > 1 || nTags > 1 || nFi > 1 {
-		verifReach("multi-element-list")
-	}
 	if sent.Ids[0] < 0 {
 		verifReach("int-negative")
 	}
